@@ -41,7 +41,9 @@ REQUIRED_BRANCHES = ['chunk_1', 'chunk_full', 'chunk_divides', 'chunk_not_divide
                      'window_empty', 'window_wmin_eq_wmax_on_node', 'ends_other_unit', 'default_max_ram',
                      'rerun_overwrite', 'cube_wavelength_other_unit',
                      'rerun_after_longer_run', 'gz_leftovers_in_output', 'parameters_stale_gz_beside', 'parameters_only_gz',
-                     'named_filter_stale_gz_beside', 'named_filter_only_gz']
+                     'named_filter_stale_gz_beside', 'named_filter_only_gz',
+                     'keep_disjoint_ok', 'keep_overlap_refused', 'run_after_refusal', 'positional_call',
+                     'fitter_positional', 'fitter_use_memmap', 'fitter_remove_resolved']
 ASSUMPTIONS = [
     'packages are stored in mJy; SED.read(unit_flux=mJy) computes (x*nu)/nu, so file contents are compared with the '
     'SED cells to 1e-13 relative; contents are compared bit-exactly between memory limits',
@@ -56,6 +58,11 @@ ASSUMPTIONS = [
     'MOnnn.fits(.gz) leftovers of an earlier longer run in convolved/. A compressed twin of an SED file in seds/ is NOT '
     'generated: the code globs both *.fits and *.fits.gz, i.e. it is a package with two files for one model, outside '
     'the quantifier',
+    'successive calls with the default overwrite=False into the same convolved/: a window that holds no wavelength '
+    'whose file already exists must be written like on a fresh directory (a refusal is a violation); a window that '
+    'does must be refused with OSError, earlier files untouched, only window files preceding the first clash written '
+    '(model: Mono.monoRunIn, theorem C16_overwrite); the directory stays usable afterwards',
+    'Fitter(use_memmap=True) keeps the model fluxes as float32: 2e-7 relative is added to the comparison there',
     're-runs with overwrite=True into a non-empty convolved/: files of the new window are rewritten, files of earlier '
     'runs outside it stay untouched, the returned table names the new window only',
     'the chunk size that results from max_ram is verified through the code\'s own log lines '
@@ -173,6 +180,20 @@ def directed_runs(pkg, rng):
     runs.append(dict(wmin=mid(0), wmax=mid(2), size=1, rerun=True))
     runs.append(dict(wmin=None, wmax=mid(1), size=2, rerun=True))
     runs.append(dict(wmin=None, wmax=None, size=n, rerun=True))
+    # the usual way to split a large grid: successive calls with the default overwrite=False on DISJOINT windows
+    # (every chunk size), then an OVERLAPPING one (must refuse), then the same with overwrite=True
+    for s_ in range(1, n + 1):
+        runs.append(dict(wmin=None, wmax=mid(1), size=s_))
+        runs.append(dict(wmin=mid(1), wmax=mid(2), size=s_, keep=True))
+        runs.append(dict(wmin=mid(2), wmax=None, size=s_, keep=True, positional=(s_ % 2 == 0)))
+    runs.append(dict(wmin=mid(0), wmax=mid(2), size=2))
+    runs.append(dict(wmin=mid(2), wmax=mid(3), size=1, keep=True))
+    runs.append(dict(wmin=mid(1), wmax=None, size=2, keep=True))               # overlaps: refused part-way
+    runs.append(dict(wmin=mid(0) if n > 2 else None, wmax=None, size=1, keep=True))     # overlaps at its first file
+    runs.append(dict(wmin=mid(1), wmax=None, size=2, rerun=True))              # the same directory is still usable
+    runs.append(dict(wmin=None, wmax=mid(0), size=1, keep=True, positional=True))
+    runs.append(dict(wmin=None, wmax=None, size=2, positional=True))
+    runs.append(dict(wmin=mid(0), wmax=mid(2), size=1, rerun=True, positional=True))
     # leftovers of an earlier, LONGER run in the output directory: a narrower re-run, then the same with the leftovers
     # compressed to MOnnn.fits.gz (no overwrite needed: the plain names are free)
     runs.append(dict(wmin=None, wmax=None, size=2))
@@ -196,6 +217,10 @@ def decorate_runs(runs, rng):
             r['rerun'] = True
         elif x < 0.40 and out:
             r['gz_leftovers'] = True
+        elif x < 0.52 and out:
+            r['keep'] = True
+        if rng.random() < 0.15:
+            r['positional'] = True
         out.append(r)
     return out
 
@@ -270,7 +295,22 @@ def gen_cube_case(rng, directed=False):
                 lst.append(entry_n(k % 2))
                 k += 1
         lists.append(lst)
-    return dict(kind='cube', pkg=pkg, broad=broad, lists=lists, aperture_dependent=bool(apdep),
+    if directed:
+        cyc = [{}, dict(positional=True), dict(use_memmap=True), dict(remove_resolved=True),
+               dict(positional=True, use_memmap=True, remove_resolved=True)]
+        fitter_opts = [cyc[k % len(cyc)] for k in range(len(lists))]
+    else:
+        fitter_opts = []
+        for _ in lists:
+            o = {}
+            if rng.random() < 0.2:
+                o['positional'] = True
+            if rng.random() < 0.2:
+                o['use_memmap'] = True
+            if rng.random() < 0.2:
+                o['remove_resolved'] = True
+            fitter_opts.append(o)
+    return dict(kind='cube', pkg=pkg, broad=broad, lists=lists, aperture_dependent=bool(apdep), fitter_opts=fitter_opts,
                 named_gz=rng.choice([None, None, None, None, None, 'stale_gz_beside', 'only_gz']))
 
 
@@ -368,6 +408,8 @@ def run_mono(d, nm, nap, run):
     gz_before = {}
     if run.get('rerun'):
         kw['overwrite'] = True
+    elif run.get('keep'):
+        pass                                                    # default overwrite=False into whatever is there
     elif run.get('gz_leftovers') and os.path.isdir(conv):
         for f in sorted(os.listdir(conv)):
             if f.endswith('.fits'):
@@ -387,22 +429,34 @@ def run_mono(d, nm, nap, run):
         kw['wav_min'] = qlo
     if qhi is not None:
         kw['wav_max'] = qhi
+    def listing():
+        out = {}
+        if os.path.isdir(conv):
+            for f in sorted(os.listdir(conv)):
+                if f.endswith('.fits'):
+                    with common.quiet():
+                        out[f[:-5]] = ConvolvedFluxes.read(os.path.join(conv, f))
+        return out
+
     old = log.level
     log.setLevel('INFO')
     try:
         with common.quiet(), log.log_to_list() as ll:
             try:
-                t = convolve_model_dir_monochromatic(d, **kw)
+                if run.get('positional'):
+                    # convolve_model_dir_monochromatic(model_dir, overwrite, max_ram, wav_min, wav_max)
+                    t = convolve_model_dir_monochromatic(d, bool(kw.get('overwrite', False)), kw.get('max_ram', 8),
+                                                         kw.get('wav_min', -np.inf * u.micron),
+                                                         kw.get('wav_max', np.inf * u.micron))
+                else:
+                    t = convolve_model_dir_monochromatic(d, **kw)
             except Exception as e:
-                return dict(raised='%s: %s' % (type(e).__name__, e), max_ram=max_ram, lo=lo, hi=hi)
+                return dict(raised='%s: %s' % (type(e).__name__, e), exc_type=type(e).__name__, max_ram=max_ram,
+                            lo=lo, hi=hi, files=listing())
     finally:
         log.setLevel(old)
     msgs = [r.getMessage() if hasattr(r, 'getMessage') else str(r.msg) for r in ll]
-    files = {}
-    for f in sorted(os.listdir(conv)):
-        if f.endswith('.fits'):
-            with common.quiet():
-                files[f[:-5]] = ConvolvedFluxes.read(os.path.join(conv, f))
+    files = listing()
     table = [(float(w), (x.decode() if isinstance(x, bytes) else str(x)).strip())
              for w, x in zip(np.asarray(t['wav'].to(u.micron).value if hasattr(t['wav'], 'to') else t['wav']), t['filter'])]
     gz_after = {f: open(os.path.join(conv, f), 'rb').read() for f in sorted(os.listdir(conv)) if f.endswith('.gz')}
@@ -464,12 +518,13 @@ def check_perfile(case, d, branches, with_model=True):
         sed_toks.append(' '.join([n, _rows(ids[m][:, desc].tolist()), _rows((ids[m][:, desc] + ids.size).tolist())]))
     ap_vals = pkg['aps'] if pkg['aps'] else [1e-30]      # what the first SED's aperture list reads as (value only)
     disk = {}                                   # digest of every file currently in convolved/
+    refused_last = False
     for run in case['runs']:
         unit = run.get('unit') or 'micron'
         tag = 'window=[%r, %r] %s chunk=%s%s' % (run['wmin'], run['wmax'], unit,
                                                   'default max_ram' if run['size'] is None else run['size'],
                                                   ' (re-run, overwrite=True)' if run.get('rerun') else '')
-        before = dict(disk) if run.get('rerun') else {}
+        before = dict(disk) if (run.get('rerun') or run.get('keep')) else {}
         res = run_mono(d, nm, nap, run)
         lo, hi = res['lo'], res['hi']           # the micron floats the code derives from the quantities given
         closed = [j for j in range(nw) if (lo is None or lo <= wdesc[j]) and (hi is None or wdesc[j] <= hi)]
@@ -487,10 +542,56 @@ def check_perfile(case, d, branches, with_model=True):
             branches.add('rerun_overwrite')
         if run.get('gz_leftovers'):
             tag += ' (earlier MOnnn files left as .fits.gz)'
+        if run.get('positional'):
+            tag += ' (positional call)'
+            branches.add('positional_call')
+        # ---- default overwrite=False into a directory that holds files of an earlier call
+        clash = []
+        if run.get('keep'):
+            tag += ' (overwrite=False, convolved/ holds %r)' % sorted(before)
+            clash = [j for j in closed if 'MO%03d' % (j + 1) in before]
+            if with_model:
+                exist_idx = sorted(int(st[2:]) - 1 for st in before)
+                line = ['monorunin', '0', ' '.join([str(len(exist_idx))] + [str(x) for x in exist_idx]),
+                        rats(wdesc), rats(ap_vals), str(nm)] + sed_toks + \
+                       [' '.join([str(nm)] + list(pkg['table'])), _end(lo), _end(hi), rat(res['max_ram'])]
+                t = common.driver().ask(' '.join(line))
+                m_refuses = (t.tok() == 'raise')
+                if m_refuses != bool(clash):
+                    mod.append('%s: model refuses=%r, harness expects refusal=%r' % (tag, m_refuses, bool(clash)))
+        if clash:
+            # a file of the window exists: the call must refuse (OSError), leave every earlier file alone and have
+            # written only window files that precede the first clash
+            after = {st: file_digest(cf) for st, cf in res['files'].items()}
+            disk = dict(after)
+            if not res['raised']:
+                mod.append('%s: overwrite=False replaced existing files %r instead of refusing'
+                           % (tag, ['MO%03d' % (j + 1) for j in clash]))
+                continue
+            branches.add('keep_overlap_refused')
+            if res.get('exc_type') != 'OSError':
+                mod.append('%s: refused with %s, expected OSError' % (tag, res['raised']))
+            changed = [st for st in before if after.get(st) != before[st]]
+            if changed:
+                prop.append('%s: the refused call changed existing files %r' % (tag, changed))
+            partial = {'MO%03d' % (j + 1) for j in closed if j < clash[0]}
+            if set(after) != set(before) | partial:
+                mod.append('%s: after the refusal convolved/ holds %r, expected %r'
+                           % (tag, sorted(after), sorted(set(before) | partial)))
+            refused_last = True
+            continue
+        if run.get('keep') and not res['raised']:
+            branches.add('keep_disjoint_ok')
+        if (run.get('rerun') or run.get('keep')) and refused_last and not res['raised']:
+            branches.add('run_after_refusal')
+        refused_last = False
         # ---- implementation raised: the property promises a result for every window
         if res['raised']:
-            prop.append('%s: raised %s; the closed window holds wavelength indices %r' % (tag, res['raised'], closed))
-            disk = {}
+            prop.append('%s: raised %s; the closed window holds wavelength indices %r%s'
+                        % (tag, res['raised'], closed,
+                           '; files present before the call: %r (none of them inside the window)' % sorted(before)
+                           if run.get('keep') else ''))
+            disk = {st: file_digest(cf) for st, cf in res.get('files', {}).items()}
             continue
         now = {st: file_digest(cf) for st, cf in res['files'].items()}
         disk = dict(now)
@@ -696,7 +797,7 @@ def check_cube(case, d, branches, with_model=True):
         ap_cond = float(np.max(aps[1:] / (aps[1:] - aps[:-1])))
         branches.add('cube_aperture_dependent')
     wdesc = np.sort(wav)[::-1]
-    for lst in lists:
+    for li, lst in enumerate(lists):
         shown = [e.get('name', (e.get('wav'), e.get('unit', 'micron'))) for e in lst]
         # at 1 kpc (aperture / 1000) arcsec is aperture a of the table; never the smallest one (a rounding below it
         # would be "too small")
@@ -710,10 +811,25 @@ def check_cube(case, d, branches, with_model=True):
                 branches.add('cube_mixed_name_before_wavelength')
             if len(kinds) - 1 - kinds[::-1].index('n') > first_w:
                 branches.add('cube_mixed_name_after_wavelength')
+        fo = case.get('fitter_opts') or []
+        opts = fo[li] if li < len(fo) else {}
+        memmap = bool(opts.get('use_memmap'))
         try:
             with common.quiet():
-                fitter = Fitter(fl, np.array(ap_arcsec) * u.arcsec, d, extinction_law=ext, av_range=(0., 1.),
-                                distance_range=np.array([1., 1.]) * u.kpc, use_memmap=False)
+                if opts.get('positional'):
+                    # Fitter(filter_names, apertures, model_dir, extinction_law, av_range, distance_range,
+                    #        remove_resolved, use_memmap)
+                    fitter = Fitter(fl, np.array(ap_arcsec) * u.arcsec, d, ext, (0., 1.), np.array([1., 1.]) * u.kpc,
+                                    bool(opts.get('remove_resolved')), memmap)
+                    branches.add('fitter_positional')
+                else:
+                    fitter = Fitter(fl, np.array(ap_arcsec) * u.arcsec, d, extinction_law=ext, av_range=(0., 1.),
+                                    distance_range=np.array([1., 1.]) * u.kpc,
+                                    remove_resolved=bool(opts.get('remove_resolved')), use_memmap=memmap)
+            if memmap:
+                branches.add('fitter_use_memmap')
+            if opts.get('remove_resolved'):
+                branches.add('fitter_remove_resolved')
         except Exception as e:
             prop.append('Fitter with filters %r raised %s: %s' % (shown, type(e).__name__, e))
             continue
@@ -729,6 +845,8 @@ def check_cube(case, d, branches, with_model=True):
                 cflux = conv[e['name']]
                 want = cflux[:, a]
                 tol = (1e-14 * ap_cond * np.max(np.abs(cflux), axis=1) + 1e-14 * np.abs(want)) if apdep else 0. * want
+                if memmap:
+                    tol = tol + 2e-7 * np.abs(want)       # use_memmap stores the model fluxes as float32
                 if not np.all(np.abs(got[:, i] - want) <= tol):
                     prop.append('filters %r: entry %d (%s): model fluxes %r; convolved file holds %r'
                                 % (shown, i, e['name'], got[:, i].tolist(), want.tolist()))
@@ -751,6 +869,8 @@ def check_cube(case, d, branches, with_model=True):
             # aperture-dependent: the fitter interpolates at (aperture/1000 arcsec) x 1000 pc, i.e. within an ulp of the
             # tabulated aperture; rounding budget = slope x aperture x 1e-14 (exact comparison otherwise)
             tol = (1e-14 * ap_cond * np.max(np.abs(val[:, :, k]), axis=1) + 1e-14 * np.abs(want)) if apdep else 0. * want
+            if memmap:
+                tol = tol + 2e-7 * np.abs(want)           # use_memmap stores the model fluxes as float32
             if not np.all(np.abs(got[:, i] - want) <= tol):
                 prop.append('filters %r: entry %d, requested %r micron: model fluxes %r; cube slice at the nearest '
                             'tabulated wavelength %r (aperture %d) is %r'
